@@ -6,6 +6,8 @@ use serde_json::Value;
 use std::collections::BTreeMap;
 
 pub mod dispatch;
+pub mod custom;
+pub mod remote;
 pub mod reply;
 pub mod twin;
 pub mod wire;
